@@ -18,6 +18,7 @@ F, G = ("f", ()), ("g", ())
 U, V = ("u", (2,)), ("v", (2,))
 A, B = ("A", (2, 2)), ("B", (2, 2))
 T3 = ("T", (2, 2, 2))
+W3 = ("w", (3,))
 
 PASSES = {"expand_indices", "remove_ct", "renumber"}
 
@@ -33,6 +34,10 @@ def slices(tier):
         Slice("ct-nested", [A], {"index", "as_tensor"}, 5, idx=(10,), levels=[{"index"}, {"as_tensor"}, {"index"}, {"as_tensor", "index"}, PASSES], **kw),
         Slice("variables", [U], {"variable", "index", "mul", "add"}, 5, idx=(), levels=[{"variable"}, {"index"}, {"index"}, {"mul", "add"}, PASSES], **kw),
         Slice("zeros", [U, F], {"mul", "index", "as_tensor", "cond", "lt"}, 4, idx=(10,), lits=[LIT["zero"]], levels=[{"index", "lt"}, {"mul", "cond"}, {"mul", "as_tensor", "cond", "index"}, PASSES], **kw),
+        # zeros that carry two free indices of DIFFERENT extents (0*u[i]*w[j]), hidden from zero simplification in a
+        # conditional and closed by a (possibly transposing) component tensor
+        Slice("zeros-mixed", [U, W3, F], {"index", "outer", "lt", "cond", "as_tensor"}, 6, idx=(10, 11), zerofi=[((10, 2), (11, 3))], maxdim=3,
+              levels=[{"outer"}, {"index"}, {"lt"}, {"cond"}, {"as_tensor"}, PASSES], mikinds=("name",), chain=True, **kw),
         Slice("lists", [U, F], {"list", "index", "mul"}, 4, idx=(10,), levels=[{"index", "list"}, {"list", "index"}, {"index", "mul"}, PASSES], **kw),
         Slice("deep", [F, U, V, A], {"index", "as_tensor", "mul", "add", "list", "neg", "variable", "dot", "inner", "outer"}, 7, idx=(10, 11, 12), finalops=PASSES, tiny=True, simulate=8 if q else 200, depth=8),
     ]
